@@ -108,6 +108,7 @@ func checkC27(w *World, r *Run) {
 	checkC27Binary(w, r, ruleBin, m)
 	checkC27JSON(w, r, ruleJSON, m)
 	checkC27Text(w, r, ruleText, m)
+	checkC27ChainLink(w, r)
 	r.NotCovered("collision resistance / injectivity of the hash input encoding beyond per-field presence; chain checks of the Validator over insert/delete/reorder (decided only through PreviousHash being hashed); escape/unescape inverse of the text serializer")
 }
 
